@@ -726,20 +726,17 @@ Section C13Main.
     constructor; simpl; intros; auto; try tauto; try lia.
   Qed.
 
-  Lemma CB_spawn : forall st n p, CB st -> (forall t, pi t p = false) -> True -> True.
-  Proof. auto. Qed.
-
   Lemma ALL_step : forall st a st', ALL st -> stepf st a = Some st' -> ALL st'.
   Proof.
     intros st a st' (HR & HC & HT & HA & HS & HB) Hs.
     assert (HR' : RG st') by (eapply RG_step; eauto).
     destruct (WI_step fixed flt wresf ev_bad hbfail eq_refl _ _ _ HR HC HT Hs) as [HC' HT'].
     unfold ALL. split; auto. split; auto. split; auto.
-    assert (Hspawn : forall n p, (forall q, (forall t op, q (IULock t op) = true -> t < ntrig st -> False) -> cntl q p = 0 \/ True) ->
+    assert (Hspawn : forall n p,
               cntl is_initold p = 0 -> (forall t, cntl (pi t) p = 0 /\ cntl (ps t) p = 0 /\ cntl (is_cancel t) p = 0 /\ cntl (is_doner t) p = 0) ->
               (forall t, ntrig st <= t -> cntl (gsrc t) p = 0) ->
               spawn st n p = Some st' -> CA st' /\ CS st' /\ CB st').
-    { intros n p _ Ho Hp Hg Hsp. apply spawn_spec in Hsp. destruct Hsp as [->|[_ ->]]; auto.
+    { intros n p Ho Hp Hg Hsp. apply spawn_spec in Hsp. destruct Hsp as [->|[_ ->]]; auto.
       split; [eapply CA_ext; [|exact HA]; ca_eq_tac|].
       split; [destruct HS; constructor; simpl; auto|].
       apply CB_CBp. destruct HB. unfold CBp. simpl.
@@ -754,11 +751,11 @@ Section C13Main.
       - apply cb_end0; auto.
       - destruct (cb_end0 t H) as [_ [F|F]]; auto. right. lia. }
     destruct a; simpl in Hs.
-    - eapply Hspawn; [auto| | | |exact Hs]; try (destruct op; reflexivity); intros; try (destruct op; repeat split; reflexivity).
+    - eapply Hspawn; [ | | |exact Hs]; try (destruct op; reflexivity); intros; try (destruct op; repeat split; reflexivity).
     - destruct (Nat.ltb_spec t (ntrig st)); [|discriminate].
-      eapply Hspawn; [auto| | | |exact Hs]; try (destruct op; reflexivity); intros; try (destruct op; repeat split; reflexivity).
+      eapply Hspawn; [ | | |exact Hs]; try (destruct op; reflexivity); intros; try (destruct op; repeat split; reflexivity).
       unfold uprog, cntl. simpl. destruct (Nat.eqb_spec t t0); [lia|]. destruct op; reflexivity.
-    - eapply Hspawn; [auto| | | |exact Hs]; try reflexivity; intros; repeat split; reflexivity.
+    - eapply Hspawn; [ | | |exact Hs]; try reflexivity; intros; repeat split; reflexivity.
     - apply step_AStep in Hs. destruct Hs as (i & rest & st1 & push & sp & Hl & He & Heq).
       assert (HI : forall p, p i = true -> cnt p (threads st) > 0) by (intros p Hp; eapply cnt_lookup_ge; eauto).
       assert (HA1 : CA st1).
@@ -766,7 +763,7 @@ Section C13Main.
         - intros t ->. pose proof (cb_pi _ HB t). specialize (HI (pi t)). simpl in HI. rewrite Nat.eqb_refl in HI. specialize (HI eq_refl).
           destruct (t_init (trigs st t)); auto. simpl in H. lia.
         - intros t ->. pose proof (cb_old _ HB). specialize (HI is_initold eq_refl). lia. }
-      assert (HS1 : CS st1) by (eapply CS_exec; eauto).
+      assert (HS1 : CS st1) by (exact (CS_exec fixed flt wresf ev_bad hbfail _ _ _ _ _ _ HR HS He)).
       split; [subst st'; eapply CA_ext; [|exact HA1]; ca_eq_tac|].
       split; [subst st'; destruct HS1; constructor; simpl; auto|].
       apply CB_CBp. subst st'. simpl.
